@@ -33,7 +33,7 @@ ASSUMPTIONS = ['tasks are atomic (each writes its own window of the shared buffe
                'worker counts and how far the workers have got at each pool API call',
                'under an injected read fault the call may raise any exception or return exactly the fault-free data',
                'a single-row save loads back as a plain array (documented behaviour of ra.load)']
-REACH_EXPECTED = ['retry_after_fault', 'alloc_fault_run', 'rows_longer_than_a_chunk', 'lazy_workers', 'eager_workers', 'worker_switch', 'multi_chunk_dispatch', 'frame_entries', 'per_file_args',
+REACH_EXPECTED = ['save_over_existing_file', 'key_asked_for_twice', 'retry_after_fault', 'alloc_fault_run', 'rows_longer_than_a_chunk', 'lazy_workers', 'eager_workers', 'worker_switch', 'multi_chunk_dispatch', 'frame_entries', 'per_file_args',
                   'lengths_hint', 'generator_input', 'read_fault_run', 'rows_cross_padding_10', 'rows_cross_padding_100',
                   'strided_load', 'key_subset_load', 'rect_array_roundtrip', 'concatenate_trjs_run', 'mixed_topologies', 'striped_loader_run']
 FORMATS = ('xtc', 'h5', 'nc')      # not trr: mdtraj's TRR reader corrupts the heap with atom_indices
@@ -289,6 +289,11 @@ def fam_ra_roundtrip(ctx):
         ctx.hit('rect_array_roundtrip')
         return
     A = ra.RaggedArray(np.concatenate(rows), lengths=lens)
+    if t.flag(1, 5):
+        # the path already holds another array (more rows, other row-name width): saving replaces the file's content
+        other = [np.arange(3, dtype=dt) + k_ for k_ in range(n_rows + t.choice((1, 2, 9, 95)))]
+        ctx.sut(ra.save, fn, ra.RaggedArray(other), compression_level=comp, tag=tag)
+        ctx.hit('save_over_existing_file')
     ctx.sut(ra.save, fn, A, compression_level=comp, tag=tag)
     full = ctx.sut(ra.load, fn)
     check_rows(full, rows, dt, 'full load')
@@ -311,6 +316,10 @@ def fam_ra_roundtrip(ctx):
         pick_idx = t.perm(n_rows)[:m]
         if t.flag():
             pick_idx = sorted(pick_idx)
+        if t.flag(1, 4):
+            # a row asked for twice (a resample with replacement) comes back twice
+            pick_idx = list(pick_idx) + [pick_idx[t.draw(len(pick_idx))]]
+            ctx.hit('key_asked_for_twice')
         keys = [by_index[i] for i in pick_idx]
         s = t.irange(1, 3)
         got = ctx.sut(ra.load, fn, keys=keys, stride=s)
